@@ -61,12 +61,12 @@ def obligations(tier: str, seed: int):
     obls = []
     tg = time_groups()
     ng = number_groups()
-    tlen = 2 if tier == "quick" else 4
+    tlen = 2 if tier == "quick" else 3
     for gi, g in enumerate(tg):
         if not observable(g[0]):
             # no function of this group carries a format literal through TIME_MAPPING: the clause is vacuous at API level
             continue
-        ct = 100 if tier == "quick" else 900
+        ct = 100 if tier == "quick" else 600
         params = {"dialect": g[0], "mode": "time", "minlen": 1, "maxlen": tlen}
         key = f"time:{g[0] or 'base'}:len1-{tlen}"
         obls.append(Obl(key=key, harness="h_time.py", params=params, cond_timeout=ct, path_timeout=15,
@@ -76,7 +76,7 @@ def obligations(tier: str, seed: int):
         if tier != "quick" or gi % 3 == seed % 3:
             params = {"dialect": g[0], "mode": "time", "minlen": nxt, "maxlen": nxt}
             key = f"time:{g[0] or 'base'}:len{nxt}-{nxt}"
-            obls.append(Obl(key=key, harness="h_time.py", params=params, cond_timeout=120 if tier == "quick" else 1500, path_timeout=15,
+            obls.append(Obl(key=key, harness="h_time.py", params=params, cond_timeout=120 if tier == "quick" else 900, path_timeout=15,
                             desc={"group": g, "unit": "format_time", "len": [nxt, nxt]}, group=key))
     nlen = 2 if tier == "quick" else 3
     for g in ng:
@@ -84,7 +84,7 @@ def obligations(tier: str, seed: int):
         key = f"number:{g[0] or 'base'}:len1-{nlen}"
         if tier == "quick" and ng.index(g) % 2 != seed % 2:
             continue
-        obls.append(Obl(key=key, harness="h_time.py", params=params, cond_timeout=150 if tier == "quick" else 1500, path_timeout=15,
+        obls.append(Obl(key=key, harness="h_time.py", params=params, cond_timeout=150 if tier == "quick" else 600, path_timeout=15,
                         desc={"group": g, "unit": "_scan_number -> Literal.number -> literal_sql -> _scan_number", "len": [1, nlen]},
                         group=key))
     from props.C05 import stmt_obligations
